@@ -9,7 +9,7 @@ DeleteSheet / SetSheetVisible / SetSheetName / MoveSheet, the template workbook)
 `Facts.MaxSheetNameLength`.  `ops` ranges over ALL finite histories of API calls,
 including rejected ones; `run init ops` is the state after the history on a `NewFile`.
 -/
-import XlModel.Lemmas.Sheets5
+import XlModel.Lemmas.Sheets7
 
 namespace XlModel.Props.C16
 open XlModel XlModel.Sheets
@@ -28,7 +28,8 @@ theorem facts_ok :
       Facts.C16.foldMoveSheet && Facts.C16.renameSourceExact && Facts.C16.renameClashCheck &&
       Facts.C16.deleteKeepsVisible && Facts.C16.hideCountsVisibleOthers &&
       Facts.C16.moveRenumbersLocalSheetId && Facts.C16.deleteAdjustsDefinedNames &&
-      Facts.C16.copyTargetByPartPath) = true := by
+      Facts.C16.copyTargetByPartPath && Facts.C16.newSheetSkipsExistingParts &&
+      Facts.C16.definedNameScopeResolved) = true ∧ Facts.C16.workbookScopeName = "Workbook" := by
   decide
 
 /-! ## invariants over any history (clauses "names stay unique case-insensitively and valid",
@@ -130,18 +131,47 @@ theorem then_independent (ops : List Op) (n : Name) (v : Nat) (s' : St)
   obtain ⟨_, hp⟩ := consistent_any_history ops
   exact setCell_parts _ s' hp n v h
 
-/-! ## the sheet list after each call is what the ordered-list model says -/
+/-! ## clause "the sheet list equals what an ordered-list model predicts": `Impl` refines `Spec` -/
+
+/-- THE SIMULATION.  `view` maps a workbook state to the ordered list of (name, visible, A1 content,
+tab selected) with the active index.  After ANY history of calls on a new file the list the
+implementation model holds is exactly the list obtained by running the ordered-list model `Spec` over
+the same calls (accepted or rejected): NewSheet appends, DeleteSheet removes (unless it is the only
+or the last visible sheet) and re-activates by name, CopySheet copies content, MoveSheet splices and
+re-activates, SetSheetName renames, SetSheetVisible hides unless last visible or selected,
+SetActiveSheet / GroupSheets / UngroupSheets move the selection, SetCellInt writes one sheet; the
+content of every sheet not targeted is unchanged because `Spec` does not change it. -/
+theorem sheets_refine_list (ops : List Op) : view (run init ops) = specRun Spec.init ops := by
+  rw [sim_run init ops init_inv init_pb, view_init]
+
+/-- one-step form: from any state reached by a history, the list after the next call is `Spec.step` of
+the list before it -/
+theorem sheets_refine_list_step (ops : List Op) (op : Op) :
+    view (step (run init ops) op).1 = (Spec.step (view (run init ops)) op).1 := by
+  obtain ⟨hi, hp⟩ := consistent_any_history ops
+  exact (sim_step _ op hi hp).symm
+
+/-- the call is accepted by the implementation model exactly when the list model accepts it
+(SetDefinedName is outside the list model) -/
+theorem sheets_refine_list_accept (ops : List Op) (op : Op) (hop : ∀ k sc, op ≠ .defname k sc) :
+    (Spec.step (view (run init ops)) op).2 = (step (run init ops) op).2.isNone := by
+  obtain ⟨hi, hp⟩ := consistent_any_history ops
+  exact sim_accept _ op hi hp hop
+
+/-! ## the sheet list after each call, operation by operation -/
 
 /-- NewSheet: nothing changes when the name exists (case-insensitively), otherwise one visible
-sheet with a fresh id is appended; active tab and defined names are untouched -/
+sheet with a fresh id (larger than every listed id, and past every existing part) is appended;
+active tab and defined names are untouched -/
 theorem list_new (s s' : St) (n : Name) (r : Option Nat) (h : newSheet s n = .ok (s', r)) :
     s' = s ∨ (checkSheetName n = .ok () ∧ (∀ sh ∈ s.sheets, fold sh.name ≠ fold n) ∧
       s'.activeTab = s.activeTab ∧ s'.defs = s.defs ∧ s'.count = s.count + 1 ∧
-      ∃ rid, s'.sheets = s.sheets ++ [⟨n, maxOf (s.sheets.map (·.id)) + 1, rid, Vis.visible⟩]) := by
+      maxOf (s.sheets.map (·.id)) < newSheetID s ∧
+      ∃ rid, s'.sheets = s.sheets ++ [⟨n, newSheetID s, rid, Vis.visible⟩]) := by
   rcases newSheet_core s s' n r h with h | ⟨hv, hf, rid, hc⟩
   · exact Or.inl h
   · simp only [core, Core.mk.injEq] at hc
-    exact Or.inr ⟨(validName_iff n).mp hv, hf, hc.2.1, hc.2.2.2, hc.1, rid, hc.2.2.1⟩
+    exact Or.inr ⟨(validName_iff n).mp hv, hf, hc.2.1, hc.2.2.2, hc.1, newSheetID_gt s, rid, hc.2.2.1⟩
 
 /-- DeleteSheet: either nothing changes, or exactly the named sheet leaves the list (order of the
 others kept), another visible sheet exists, and the new active tab is inside the list -/
